@@ -49,6 +49,9 @@ func runC05(p *an.Prog, r *an.Run, tier string) {
 		}
 	}
 	r.Floor("implementations", len(drivers), 2)
+	// the nonce is remembered under the identity string as received: the signature must bind exactly that spelling and
+	// exactly that nonce, or one signed request is honoured once per spelling / per neighbouring nonce (shared with C04)
+	checkHashCovers(p, r)
 	window, okW := p.PkgConstInt("pool/store", "ExpireNonce")
 	r.Check(okW && window == int64(15*60*1e9), "fresh", "store.ExpireNonce", token.NoPos, "ExpireNonce = 15m", "store.ExpireNonce evaluates to %d ns, the property fixes the freshness window at 15 minutes", window)
 
